@@ -821,7 +821,7 @@ def gen(ctx):
                     for syntax in (SYNTAXES if ctx.tier != 'quick' else [SYNTAXES[k % 3]]):
                         add(st, syntax, ind if ind is not None else INDENTS[k % len(INDENTS)], 'scale:' + dim)
                         ctx.cover('scale:%s:%s' % (dim, '8-12' if n <= 12 else '16-33' if n <= 33 else '64-100'))
-        for _ in range(150 if ctx.tier == 'quick' else 3000):
+        for _ in range(120 if ctx.tier == 'quick' else 3000):
             st = deep_stmt(rng, names, rng.randint(2, 7)) if rng.random() < 0.5 else g.rand_stmt(rng, names, rng.randint(1, 7), max_depth=2, rep_max=12)
             decorate_stmt(rng, st, 0.6)
             for el in elements_of(st):
@@ -856,7 +856,7 @@ def gen(ctx):
                               (g.El(name=None, classes=['x'], text='t'), '+'), (g.El(name='custom', self_close=True, attrs=[('checked', 'no', '')]), '')]
                         add(st, syntax, INDENTS[(k + 1) % len(INDENTS)], 'options:other-option-values', o)
         # random statements, attributes of every kind and form, random option sets
-        for _ in range(700 if ctx.tier == 'quick' else 12000):
+        for _ in range(500 if ctx.tier == 'quick' else 12000):
             o = rand_options(rng)
             if not o:
                 continue
